@@ -2,9 +2,12 @@ package main
 
 import (
 	"bytes"
+	"os"
 	"strconv"
 )
 
 func itoa(n int) string                     { return strconv.Itoa(n) }
 func bytesEq(a, b []byte) bool              { return bytes.Equal(a, b) }
 func bytesContains(a []byte, s string) bool { return bytes.Contains(a, []byte(s)) }
+
+func readFile(p string) ([]byte, error) { return os.ReadFile(p) }
